@@ -1576,7 +1576,12 @@ func (fr *frame) selectInstr(x *ssa.Select, st *State, g string) {
 			if _, ok := vc.P.Ghosts["polled"]; !ok {
 				vc.P.Ghosts["polled"] = &GhostDecl{Name: "polled", Sort: "Bool", Init: "false"}
 			}
-			st.ghost["polled"] = "true"
+			// only a poll of the Done channel of a context the function was given counts as polling for cancellation
+			if isDoneOfGivenContext(s.Chan) {
+				st.ghost["polled"] = "true"
+			} else {
+				vc.note("a non-blocking select in " + vc.fn + " polls a channel that is not the Done channel of a context parameter: not counted as a cancellation poll")
+			}
 			continue
 		}
 		fr.chanEvent(kind, s.Chan, st, g, x.Pos())
@@ -1736,6 +1741,23 @@ func (fr *frame) loopBackEdge(from, header *ssa.BasicBlock, li *loopInfo, st *St
 					vc.oblige("inv-keep", fmt.Sprintf("loop%d:frame:%s", li.ordinal, strings.TrimPrefix(c, "H_")), cond, fs[c], "the frame condition is preserved by the loop body (class "+c+")", fr.props, posOf(fr.fn, blockPos(from)))
 				}
 			}
+		}
+	}
+	// `loop n maintains e`: every iteration that goes round again ends in a state where e holds (checked on the back
+	// edge, over the values the body computed; unlike an invariant it is not assumed at the header, so it may speak about
+	// variables that only live inside the body)
+	if fr.contract != nil {
+		for _, c := range fr.contract.Get("loop-maintains") {
+			if c.Loop != li.ordinal {
+				continue
+			}
+			env := fr.specEnvAt(st)
+			env.loopHeader = header
+			lab := fmt.Sprintf("loop%d", li.ordinal)
+			if c.Label != "" {
+				lab += ":" + c.Label
+			}
+			vc.oblige("maintains", lab, cond, env.trBool(c.E), fmt.Sprintf("loop %d maintains %s", li.ordinal, c.Text), fr.props, posOf(fr.fn, blockPos(from)))
 		}
 	}
 	if len(invs) == 0 {
@@ -2034,4 +2056,22 @@ func cellNeverReassigned(fn *ssa.Function, name string) bool {
 		}
 	}
 	return true
+}
+
+func isDoneOfGivenContext(ch ssa.Value) bool {
+	c, ok := ch.(*ssa.Call)
+	if !ok || !c.Call.IsInvoke() || c.Call.Method.Name() != "Done" {
+		return false
+	}
+	if types.TypeString(c.Call.Value.Type(), nil) != "context.Context" {
+		return false
+	}
+	switch v := c.Call.Value.(type) {
+	case *ssa.Parameter:
+		return true
+	case *ssa.UnOp: // a captured context
+		_, isFree := v.X.(*ssa.FreeVar)
+		return v.Op == token.MUL && isFree
+	}
+	return false
 }
